@@ -101,6 +101,8 @@ pub struct RunStats {
     pub maxima: BTreeMap<String, u64>,
     /// named coverage sets (union-merged; evidence reports their sizes)
     pub sets: BTreeMap<String, BTreeSet<u64>>,
+    /// instances of listed known findings met inside this run (id -> count)
+    pub known: BTreeMap<String, u64>,
 }
 
 impl RunStats {
@@ -169,6 +171,31 @@ pub trait Prop: Sync {
     fn regressions(&self) -> Vec<(String, Self::Case)> {
         Vec::new()
     }
+}
+
+static LISTED: std::sync::OnceLock<Vec<(String, String)>> = std::sync::OnceLock::new();
+
+/// Is finding `id` of property `prop` listed in known_findings.json (status finding)?
+/// Checks that enumerate use this to count a listed finding and keep going; an unlisted one is
+/// returned as a violation like any other.
+pub fn listed(prop: &str, id: &str) -> bool {
+    let l = LISTED.get_or_init(|| {
+        let dir = std::env::var("VERIF_DIR").map(PathBuf::from).unwrap_or_else(|_| PathBuf::from("/verif"));
+        let mut out = Vec::new();
+        if let Ok(text) = std::fs::read_to_string(dir.join("known_findings.json")) {
+            if let Ok(v) = serde_json::from_str::<Value>(&text) {
+                if let Some(arr) = v.get("findings").and_then(|f| f.as_array()) {
+                    for f in arr {
+                        let p = f.get("property").and_then(|p| p.as_str()).unwrap_or("").to_string();
+                        let i = f.get("id").and_then(|p| p.as_str()).unwrap_or("").to_string();
+                        out.push((p, i));
+                    }
+                }
+            }
+        }
+        out
+    });
+    l.iter().any(|(p, i)| p == prop && i == id)
 }
 
 thread_local! {
@@ -797,6 +824,9 @@ pub fn batch_main<P: Prop>(p: &P, opts: &Options) -> i32 {
             }
         }
         fps.extend(c.stats.fingerprints.iter().copied());
+        for (k, v) in &c.stats.known {
+            *known_hits.entry(k.clone()).or_insert(0) += v;
+        }
         for (k, v) in &c.stats.sets {
             sets.entry(k.clone()).or_default().extend(v.iter().copied());
         }
